@@ -32,6 +32,8 @@ class Rule:
         label chosen by the rule (never a line number or source text)."""
         key = '%s|%s|%s' % (self.id, construct, tag)
         w = self._where(fn, node)
+        if any(f['key'] == key and f['where'] == w for f in self.findings):
+            return
         self.instances.append({'construct': construct, 'fact': 'FAILED: ' + what, 'where': w, 'ok': False})
         self.findings.append({'property': self.ctx.pid, 'rule': self.id, 'construct': construct,
                               'tag': tag, 'key': key, 'what': what, 'where': w,
